@@ -299,6 +299,11 @@ class CallMixin:
                     # keep the more specific of the two static types
                     if v.t.cls == 'object' or t.cls in self.ctx.shapes.subclasses(v.t.cls):
                         v = RefV(v.term, t, v.nullable)
+            if ts and isinstance(v, Cont) and v.t.kind in ('set', 'rset', 'dict', 'rdict'):
+                t = parse_type(ts)
+                if t.kind == 'list':
+                    # the callee iterates an Iterable: any enumeration of the set is a possible order
+                    v = self.to_list(v, st, Frame('zeroconf', None, None, None), None)
             if ts and isinstance(v, NoneV):
                 t = parse_type(ts)
                 if t.kind == 'ref':
